@@ -57,6 +57,7 @@ def run(ctx):
     from rules import links
     links.extractor(facts, rep)
     links.parser_under_sgr(facts, rep)
+    links.colours_to_rgb(facts, rep)      # the sheet's RGB values come from anstyle-lossy's palette lookups
     rep.guarded("runs", V + "Term::render_svg", lambda: rule_runs(facts, rep))
     for r, n in (("taint", 8), ("pairing", 9), ("classes", 11), ("invert", 4), ("names", 6), ("balance", 4), ("text", 5), ("lines", 7), ("codes", 26), ("substate", 33), ("targets", 5), ("emit", 9), ("runs", 2)):
         rep.floor(r, n)
